@@ -128,6 +128,10 @@ def assemble_block_csr(blocks):
         for block_values, block_rowptr, block_colidx, block_ncols in row:
             assert len(block_rowptr) - 1 == nrows, 'sparse blocks have inconsistent row sizes'
             assert block_values.dtype == dtype, 'blocks must all have the same dtype'
+            if not (block_rowptr[0] == 0 and all(block_rowptr[1:] >= block_rowptr[:-1]) and block_rowptr[-1] == len(block_values) == len(block_colidx)):
+                raise MatrixError('assemble received invalid row indices for a block')
+            if len(block_colidx) and not (0 <= block_colidx.min() and block_colidx.max() < block_ncols):
+                raise MatrixError('assemble received invalid column indices for a block')
             if len(block_values):
                 block_data.append((block_values, block_rowptr, block_colidx + col_offset))
             col_offset += block_ncols
